@@ -165,8 +165,41 @@ def check_roles(rsig, isig, order):
     return bad
 
 
+def check_families(rsig):
+    """implementations that share ONE code object but differ in their defaults (stamped from a template, or __defaults__
+    reassigned), verified one after another in both orders: each verdict is that of the statement for that function"""
+    import types
+    bad = []
+    iface = InterfaceClass(common.uname('IF'), (Interface,), {'m': mkfunc(rsig)})
+
+    def template(self, a0=None, a1=None):
+        pass
+    variants = [None, (1,), (1, 2)]
+    for order in ([0, 1, 2], [2, 1, 0], [1, 0, 2, 0]):
+        done = []
+        for k in order:
+            f = types.FunctionType(template.__code__, template.__globals__, 'm', variants[k])
+            K = type(common.uname('KF'), (object,), {'m': f})
+            classImplements(K, iface)
+            for verify, cand, bound, role in ((verifyClass, K, K().m, 'class'), (verifyObject, K(), K().m, 'object')):
+                exp_ok = admitted_ok(rsig, bound)
+                try:
+                    verify(iface, cand)
+                    got_ok = True
+                except Invalid:
+                    got_ok = False
+                if got_ok != exp_ok:
+                    bad.append(('families', '%s (%s) of an implementation with __defaults__=%r sharing its code object with the ones verified '
+                                'before (%r): interface m%s, implementation %s: verification %s but the admitted call shapes %s' % (
+                                    verify.__name__, role, variants[k], done, inspect.signature(mkfunc(rsig)), inspect.signature(bound),
+                                    'succeeded' if got_ok else 'failed', 'all bind' if exp_ok else 'do not all bind')))
+                    return bad
+            done.append(variants[k])
+    return bad
+
+
 def replay(kind, *args):
-    bad = check_pair(*args) if kind == 'pair' else (check_roles(*args) if kind == 'roles' else check_collect(*args))
+    bad = check_pair(*args) if kind == 'pair' else (check_roles(*args) if kind == 'roles' else (check_families(*args) if kind == 'families' else check_collect(*args)))
     for sig, what in bad:
         print('violated:', sig, what)
     sys.exit(1 if bad else 0)
@@ -175,7 +208,7 @@ def replay(kind, *args):
 def run(ctx):
     ctx.rule = ('all pairs of method signatures with <=2 required, <=2 defaulted, optional *args/**kw (24x24) for object, '
                 'class and function-attribute verification, oracle inspect.Signature.bind over the admitted call shapes; '
-                'the same implementation function verified in several binding roles one after another (class, class object providing the interface, instance); '
+                'implementations sharing one code object with different defaults verified one after another; the same implementation function verified in several binding roles one after another (class, class object providing the interface, instance); '
                 'plus all subsets of missing attributes / incompatible methods x declared x tentative x class/object on a '
                 '2- and 3-deep interface chain; distinct = distinct (case) tuples')
     ctx.bounds = 'parameters per kind <= 2; 5 names'
@@ -196,6 +229,12 @@ def run(ctx):
                 ctx.case(('roles', rsig, isig, order))
                 for sig, what in check_roles(rsig, isig, order):
                     ctx.violation(sig, what, 'from falsify.C17 import replay\nreplay("roles", %r, %r, %r)\n' % (rsig, isig, order))
+    for rsig in SIGS:
+        if ctx.too_many():
+            return
+        ctx.case(('families', rsig))
+        for sig, what in check_families(rsig):
+            ctx.violation(sig, what, 'from falsify.C17 import replay\nreplay("families", %r)\n' % (rsig,))
     ctx.sample({'interface': 'm(a0, o0=0, *args)', 'implementation': 'm(self, a0, **kw)', 'oracle': 'Signature.bind on admitted shapes'})
     names = ['x0', 'f0', 'x1', 'f1', 'f2']
     for deep in (False, True):
